@@ -114,6 +114,20 @@ func init() {
 			unitStrs := []*sx.Node{vS("5m30s"), vS("1d"), vS("1 day 2 hours"), vS("90"), vS("1.5m"), vS("2m1H"), vS("153722867280912931m"), vS("x"), vS(""), vS("10 s"), vI("i64", 61), vF("f64", 61)}
 			emitBatched(emit, nil, dInt(ip(60), ip(100000), &secs), allOps(unitStrs, ops4...), 60)
 			emitBatched(emit, nil, dInt(nil, nil, &byt), allOps([]*sx.Node{vS("1kB"), vS("1 kilobyte 1 byte"), vS("8192PB"), vS("1B1kB")}, ops4...), 60)
+			// every edge string of a unit definition (gen_rich.go: zero counts in every position, each unit alone, the largest
+			// representable total written with several components, totals beyond it by the SUM and by one component, counts
+			// beyond int64) against no bound, a max bound (a wrapped total would slip under it) and the float reading
+			for _, ud := range []unitsD{secs, byt} {
+				u := ud
+				var uvals []*sx.Node
+				for _, txt := range unitEdgeStrings(u) {
+					uvals = append(uvals, vS(txt))
+				}
+				emitBatched(emit, nil, dInt(nil, nil, &u), allOps(uvals, ops4...), 60)
+				emitBatched(emit, nil, dInt(nil, ip(1000), &u), allOps(uvals, "u", "c"), 60)
+				emitBatched(emit, nil, dFloat(nil, nil, &u), allOps(uvals, "u", "c"), 60)
+				emitBatched(emit, nil, dEnumInt([]int64{0, 60, math.MinInt64, math.MaxInt64}, &u), allOps(uvals, "u", "c"), 60)
+			}
 			// ---- floats ----
 			fcfgs := [][2]*float64{{nil, nil}, {fp(-5.5), nil}, {nil, fp(10.25)}, {fp(-5.5), fp(10.25)}, {fp(1), fp(2)}, {fp(2), fp(1)},
 				{fp(0), fp(0)}, {fp(math.Inf(-1)), fp(math.Inf(1))}, {fp(math.NaN()), nil}, {fp(-math.MaxFloat64), fp(math.MaxFloat64)}}
